@@ -42,7 +42,9 @@ THEOREMS = {
                                 ("BS.Props.C06", "BS.Props.C06.prior_index_state_irrelevant"),
                                 ("BS.Props.C06", "BS.Props.C06.chunk_size_irrelevant"),
                                 ("BS.Props.C06", "BS.Props.C06.rebuilt_file_bytes")]),
-    "C12": (["BS.Props.C12"], [("BS.Props.C12", "BS.Props.C12.len_is_count"),
+    "C12": (["BS.Props.C12"], [("BS.Props.C12", "BS.Props.C12.last_line_is_last"),
+                                ("BS.Props.C12", "BS.Props.C12.len_after_reopen"),
+                                ("BS.Props.C12", "BS.Props.C12.len_is_count"),
                                 ("BS.Props.C12", "BS.Props.C12.range_is_first_last"),
                                 ("BS.Props.C12", "BS.Props.C12.size_formula")]),
     "C15": (["BS.Props.C15"], [("BS.Props.C15", "BS.Props.C15.push_keeps_canonical"),
@@ -68,7 +70,9 @@ THEOREMS = {
                                 ("BS.Props.C13", "BS.Props.C13.first_n_of_any_range"),
                                 ("BS.Props.C13", "BS.Props.C13.processor_takes_prefix"),
                                 ("BS.Props.C13", "BS.Props.C13.paging_visits_every_line_once")]),
-    "C16": (["BS.Props.C16"], [("BS.Props.C16", "BS.Props.C16.pushData_appends"),
+    "C16": (["BS.Props.C16", "BS.Props.C16Session"], [("BS.Props.C16Session", "BS.Props.C16.push_line_only_appends"),
+                                ("BS.Props.C16Session", "BS.Props.C16.queries_never_write"),
+                                ("BS.Props.C16", "BS.Props.C16.pushData_appends"),
                                 ("BS.Props.C16", "BS.Props.C16.pushData_error_no_state"),
                                 ("BS.Props.C16", "BS.Props.C16.cacheProcess_appends")]),
     "C08": (["BS.Props.C08"], [("BS.Props.C08", "BS.Props.C08.caches_exact_in_one_session"),
@@ -77,6 +81,7 @@ THEOREMS = {
                                 ("BS.Props.C08", "BS.Props.C08.bucketMeans_length"),
                                 ("BS.Props.C08", "BS.Props.C08.bucketMeans_get")]),
     "C19": (["BS.Props.C19", "BS.Props.C11", "BS.Props.C04"], [("BS.Props.C19", "BS.Props.C19.queries_never_panic"),
+                                ("BS.Props.C19", "BS.Props.C19.queries_never_panic_with_caches"),
                                 ("BS.Props.C19", "BS.Props.C19.appends_never_panic"),
                                 ("BS.Props.C19", "BS.Props.C19.oversized_header_is_error"),
                                 ("BS.Props.C11", "BS.Props.C11.estimate_total"),
@@ -163,7 +168,7 @@ PROPS = {
     },
     "C16": {
         "proj": {"ops": {"push", "pushrun", "read_all", "len", "range", "last_line", "is_empty", "payload_size",
-                         "n_lines", "read_first_n", "read_n", "page"}, "fsaudit": True},
+                         "n_lines", "read_first_n", "read_n", "page", "open"}, "fsaudit": True},
         "gen": gen.gen_C16,
         "audit": True,
     },
@@ -199,11 +204,11 @@ LEVEL_TEXT = {
  "C09": "Kernel-checked on the model (integer resampler): a cache that is missing, intact or torn at ANY byte, with its index in any legitimate prior state, is brought back on open to exactly header ++ encode(bucketMeans B history) with the open bucket in the accumulator - for every line count of the source, every 1 <= B <= 2^32, every payload size and timestamp magnitude (cache_restored_on_open; the resume point line_pos is exact for every line number: resume_point_exact); one round of 'any append attempts, close, builder.open with the same configuration' re-establishes the invariant for the source and EVERY cache level and leaves source and intact cache files byte-identical, so any mix of appends and reopens equals one uninterrupted session (append_close_reopen_keeps_caches); after a crash (source cut at any byte, caches absent/torn relative to the surviving lines) the open repairs source and caches (reopen_repairs_source_and_caches). NOT a theorem: a cache that ran AHEAD of a torn source (never a panic, at most the straddling bucket deviates) - that clause is carried by the differential check (source torn with the cache ahead, B in {1,2,3,4,10}), as is a cache data file present with its index deleted. Hypothesis TailClean for payload < 4 (known finding marker-tail).",
  "C10": "Kernel-checked on the model: read_n without caches, for EVERY pair of bounds and n >= 1 (files up to 2^32 lines): uniform bucket means with one bucket size b >= 1 of exactly the lines a full read of the range returns, at most 2n of them, no overflow (read_n_of_any_range, sampler_is_bucket_means, at_most_2n). The resampler is the harness's integer resampler over the library's own u64 ResampleState; the generic resampler contract is an assumption.",
  "C11": "Kernel-checked at full strength on the model: in every state satisfying the session invariant with any number of cache levels (listed by increasing bucket size), for every n >= 1 and EVERY pair of bounds, read_n never panics (ordering assert, level selection, estimate_lines incl. its unreachable! arm, seek, read), selects one stored level and returns exactly uniform bucket means (one b >= 1) of that level's stored lines inside the bounds, at most 2n of them, or an empty result / range error when the level has nothing in range (read_n_through_caches, level_selection_total, estimate_total_for_any_seek, unreachable_arm); the level's content is pinned by C08/C09 (cache B = bucketMeans B history). Differential: every stored level decoded independently and the result matched against it (judge ~readnc), caches longer in bytes than finer ones, ranges inside gaps of a cache.",
- "C12": "Kernel-checked on the model under the session invariant: len() = number of accepted lines, range() = first/last timestamp, last time = last line's timestamp, payload size constant; byte-size formula (len_is_count, range_is_first_last, size_formula). After repair / rebuild the invariant is re-established by C04/C05's open theorems (data level). last_line() through the API and is_empty are differential.",
+ "C12": "Kernel-checked on the model under the session invariant: len() = number of accepted lines, range() = first/last timestamp, last time = last line's timestamp, payload size constant; byte-size formula (len_is_count, range_is_first_last, size_formula), last_line() returns the last accepted line read back from the file (last_line_is_last). After reopen / repair / rebuild the invariant is re-established by C04/C05's open theorems through the API (len_after_reopen with api_reopen_preserves / api_open_recovers_prefix). Differential incl. the smallest series seen again after reopen and torn tails that lose several sections.",
  "C13": "Kernel-checked on the model: read_first_n(n >= 1, range) for EVERY pair of bounds returns the first min(n,k) of the k entries read_all(range) returns (first_n_of_any_range, processor_takes_prefix), and the paging loop of examples/read.rs (continue one past the last timestamp seen) ends within len+3 rounds having collected exactly the history, in order, for EVERY page size n >= 1 (paging_visits_every_line_once). Differential: first-n vs full reads for random ranges, page op for page sizes 1..len+1.",
  "C14": "Kernel-checked on the model for EVERY pair of bounds: n_lines_between is 0 / a range error iff no entry is in range, else k + lines_per_metainfo * m with m <= k sections opened by entries in range (count_consistent, range_bytes).",
  "C15": "Kernel-checked: push_data keeps data file = header ++ encode(history) where encode opens a section for the first line and iff the distance to the last full timestamp exceeds 65534 \u2014 a pure function of header and accepted lines; size formula; after any open the file is again canonical (C04/C05) (push_keeps_canonical, size_formula, section_rule).",
- "C16": "Kernel-checked for the write path: push_data and the cache's process only append to data and index files (pushData_appends, cacheProcess_appends). That reads/counts/accessors never write is true of the model by construction (pure functions) and is carried by the differential file audit: bsrun snapshots every file before and after every call and the change class (same/append/other) is compared with the model's and with the rule.",
+ "C16": "Kernel-checked on the model: push_line only appends - whatever it returns, every file of the series and of every cache level keeps its previous content as a prefix, none is created, deleted or truncated, for ANY directory and session state (push_line_only_appends; pushData_appends, cacheProcess_appends); every query operation leaves the directory exactly as it was (queries_never_write, over the whole step function). The tie to the code is the differential file audit: bsrun snapshots every file before and after every call and the change class (same/append/other) is compared with the model's and with the rule.",
  "C17": "Kernel-checked on the model: the header round trip for EVERY payload size a usize holds and EVERY user header (any bytes, incl. the parser's own patterns): what creation writes is parsed back to exactly that payload size and header, a different demanded payload size is refused with PayloadSizeChanged (header_and_size_stored_and_enforced = T10); through the whole API model create -> any appends -> close or crash -> builder.open (size demanded or retrieved, header demanded or any) returns the stored header, size and lines (reopen_returns_header_and_size); wrong size: error and the directory untouched; missing series: error, nothing created; create over existing: error, files untouched; oversized header: error, nothing left behind (4 theorems). Modelled, not proved: a demanded header that differs (decided by one comparison in the model), the path/extension handling and the OS create_new semantics - those are differential (header lengths around the 16-bit limit, binary headers, every option combination, directory listing before/after). One known finding (stale-cache-create).",
  "C18": "Kernel-checked on the model of read_with_processor, for every processor and every content around the damage: without consent the read stops with CorruptMetaSection exactly at the damaged section; with consent every line up to the next intact section is dropped without reaching the processor and reading resumes after that section with its timestamp (no_consent_is_error, skipping_drops, consent_resumes_at_next_section). Differential incl. damaged sections longer than one and two read buffers.",
  "C19": "Kernel-checked on the model: in every state satisfying the session invariant for ANY history (empty included; no caches) and for EVERY pair of bounds and EVERY n (0 included) read_all, read_first_n, read_n, n_lines_between, len, last_line return a value or an error, never a panic, and n = 0 returns nothing (queries_never_panic; read_n under <= 2^32 lines per file); creating a series with any admissible configuration and making ANY sequence of append attempts never panics (appends_never_panic, all cache levels included); an oversized header is an error that creates nothing (oversized_header_is_error); estimate_lines and last_meta_timestamp cannot fault or loop (C11, C04). Not covered by a theorem: open of damaged files beyond C05's hypotheses, read_n through caches, header parsing on foreign files - those are differential (extreme-argument cross product, panic hook, watchdog per script). Known finding marker-tail applies."
